@@ -29,12 +29,12 @@ CHECKS = {
     'C17': dict(
         category='other', design_ref='DESIGN.md §5 C17',
         technique='provenance normal forms of every serde method (sibling delegations substituted) compared with a reference shape table; panic-edge audit of ser.rs; marker-name agreement between producers and consumer',
-        text='The value returned by every Serializer/KeySerializer/compound method, reduced to a normal form, equals the shape table of the property (integer kinds, containers, variants, option/unit, marker newtypes); element and entry methods store the converted element/key/value; ser.rs has no unaudited panic edge; the Duration/Timestamp wrappers and the time serializer agree on names and exact components; no zone conversion in ser.rs and the timestamp payload is parsed as DateTime<FixedOffset>. Commutation with serde_json is not decided.',
+        text='The value returned by every Serializer/KeySerializer/compound method, reduced to a normal form, equals the shape table of the property (integer kinds, containers, variants, option/unit, marker newtypes); element and entry methods store the converted element/key/value; ser.rs has no unaudited panic edge; the Duration/Timestamp wrappers and the time serializer agree on names and exact components; no zone conversion in ser.rs and the timestamp payload is parsed as DateTime<FixedOffset>. Commutation with serde_json is not decided. Producer rule P1 (json feature): the export arm table and the plain key text (C18 R1/R4) for the commutation clause.',
         note='serde provided methods and the reference table trusted'),
     'C18': dict(
         category='other', design_ref='DESIGN.md §5 C18',
         technique='decision-tree arm table with provenance predicates, use/def rule for nested results, panic-edge audit',
-        text='Per Value variant the export arm is exactly the documented mapping (conversions by serde_json From of the payload without casts, base64 STANDARD, RFC 3339, nanosecond count with overflow error, catch-all error); nested json() results are `?`-propagated or collected into a Result; json.rs has no panic edge. The import-back round trip is not decided. Producer rule P1 re-checks the serializer shape table and store-every-entry effects used by the import leg (C17 R1).',
+        text='Per Value variant the export arm is exactly the documented mapping (conversions by serde_json From of the payload without casts, base64 STANDARD, RFC 3339, nanosecond count with overflow error, catch-all error); nested json() results are `?`-propagated or collected into a Result; json.rs has no panic edge. The import-back round trip is not decided. Producer rule P1 re-checks the serializer shape table and store-every-entry effects used by the import leg (C17 R1). Display for Key is the plain payload text (member names).',
         note='analysed with the json feature; serde_json/base64/chrono behaviour trusted'),
     'C16': dict(
         category='other', design_ref='DESIGN.md §5 C16',
@@ -54,7 +54,7 @@ CHECKS = {
     'C20': dict(
         category='other', design_ref='DESIGN.md §5 C20',
         technique='provenance/signature-table rules over extractors, registry and call site + rustc compile(-fail) witnesses for arities and parameter types',
-        text='This applies one conversion to receiver or first argument and is the first parameter of every built-in using it (table from the resolved generic arguments of the 24 registrations), no extractor indexes the argument list blindly, add is an unconditional insert and lookups walk to the root, 20 adapters exist and rustc accepts arities 0-9 / rejects arity 10 and unsupported types, the call site passes receiver, unevaluated arguments, name and a zero cursor; FromValue accepts exactly its own variant; the evaluator compares the call name with operator names only, so every other name goes through the registry.',
+        text='This applies one conversion to receiver or first argument and is the first parameter of every built-in using it (table from the resolved generic arguments of the 24 registrations), no extractor indexes the argument list blindly, add is an unconditional insert and lookups walk to the root, 20 adapters exist and rustc accepts arities 0-9 / rejects arity 10 and unsupported types, the call site passes receiver, unevaluated arguments, name and a zero cursor; FromValue accepts exactly its own variant; the evaluator compares the call name with operator names only, so every other name goes through the registry. Only extractors and resolvers read the raw FunctionContext fields.',
         note='bodies of host functions are outside the claim'),
     'C10': dict(
         category='other', design_ref='DESIGN.md §5 C10',
@@ -69,7 +69,7 @@ CHECKS = {
     'C13': dict(
         category='other', design_ref='DESIGN.md §5 C13',
         technique='interval + NaN-flag abstract interpretation over mandatory branch edges for float->int casts; API/table rules for literal visitors and conversion built-ins',
-        text='Decides: every float->integer cast in the built-ins is dominated by guards that exclude NaN and establish the half-open range of the target; int<->uint conversion uses propagated try_into; literal visitors take the value from str::parse/from_str_radix(16) of the right type with the error reported, finite doubles only, no casts/defaults; conversion built-ins pair Display/FromStr of matching types. Round-trips are delegated to std and not decided. Signed hex spellings are recognised, double(string) rejects overflow; producer rule P1: no constant folding in the parser (C04 R5/R7/R9).',
+        text='Decides: every float->integer cast in the built-ins is dominated by guards that exclude NaN and establish the half-open range of the target; int<->uint conversion uses propagated try_into; literal visitors take the value from str::parse/from_str_radix(16) of the right type with the error reported, finite doubles only, no casts/defaults; conversion built-ins pair Display/FromStr of matching types. Round-trips are delegated to std and not decided. Signed hex spellings are recognised, double(string) rejects overflow; producer rule P1: no constant folding in the parser (C04 R5/R7/R9). The Val->Value literal table keeps kind and payload.',
         note='IEEE/`as` semantics and std parse/Display trusted'),
     'C09': dict(
         category='other', design_ref='DESIGN.md §5 C09',
@@ -79,7 +79,7 @@ CHECKS = {
     'C14': dict(
         category='other', design_ref='DESIGN.md §5 C14',
         technique='who-calls rule over resolved call sites with key-provenance classification; shape rules for Map::get, index and `in` arms',
-        text='Decides the lookup-agreement clause: every lookup of a possibly numeric key on a CEL map goes through Map::get (the int/uint cross lookup), Map::get tries the exact key first and converts with try_from, list indexing uses get -> Null, `in` on lists is contains, map literals insert every evaluated entry; list/string `+` appends rhs to a copy-on-write view of self in order and size() is len() of the own payload (additivity then follows from std contracts); has(m.f) consults only the keys of the map (no member()/registry fallback). Producer rule P1 re-checks the parser-side construction of index, `in`, select and literal nodes (C04 R3/R7/R8/R9).',
+        text='Decides the lookup-agreement clause: every lookup of a possibly numeric key on a CEL map goes through Map::get (the int/uint cross lookup), Map::get tries the exact key first and converts with try_from, list indexing uses get -> Null, `in` on lists is contains, map literals insert every evaluated entry; list/string `+` appends rhs to a copy-on-write view of self in order and size() is len() of the own payload (additivity then follows from std contracts); has(m.f) consults only the keys of the map (no member()/registry fallback). Producer rule P1 re-checks the parser-side construction of index, `in`, select and literal nodes (C04 R3/R7/R8/R9). Value<->Key conversions keep kind and payload; in m.k the method-reference fallback is built only when the key is absent.',
         note='std HashMap/slice contracts trusted; string/bool keys have no numeric twin'),
     'C19': dict(
         category='other', design_ref='DESIGN.md §5 C19',
@@ -99,7 +99,7 @@ CHECKS = {
     'C08': dict(
         category='other', design_ref='DESIGN.md §5 C08',
         technique='MIR operator whitelist + provenance-checked sibling table over the five arithmetic impls and unary minus',
-        text='No raw integer arithmetic or non-checked integer method in the arithmetic impls/unary minus; each (trait, kind) uses checked_<same op> with (self,rhs) operand order and Some->same kind / None->expected error; Int Div/Rem test for zero first; no numeric casts or mixed numeric arms. With std\'s checked_* contract this implies exact-or-error for all operands. Producer rule P1 re-checks the parser-side construction of arithmetic and unary-minus nodes (C04 R3/R5/R7/R9).',
+        text='No raw integer arithmetic or non-checked integer method in the arithmetic impls/unary minus; each (trait, kind) uses checked_<same op> with (self,rhs) operand order and Some->same kind / None->expected error; Int Div/Rem test for zero first; no numeric casts or mixed numeric arms. With std\'s checked_* contract this implies exact-or-error for all operands. Producer rule P1 re-checks the parser-side construction of arithmetic and unary-minus nodes (C04 R3/R5/R7/R9). No successful result hands an operand back or is built from one operand only.',
         note='std checked_* contract trusted; f64 arithmetic is IEEE by construction'),
     'C05': dict(
         category='proof', design_ref='DESIGN.md §5 C05',
